@@ -39,10 +39,12 @@ CMP = {"Eq": lambda a, b: a == b, "Ne": lambda a, b: a != b, "Lt": lambda a, b: 
 
 
 class Folder:
-    def __init__(self, prog, max_depth=5):
+    def __init__(self, prog, max_depth=5, opaque=None):
+        self.opaque = opaque
         self.prog = prog
         self.max_depth = max_depth
         self._paths = {}
+        self._memo = {}
 
     def paths(self, fpath):
         if fpath not in self._paths:
@@ -180,6 +182,9 @@ class Folder:
             if isinstance(name, str) and self.prog.has(name) and depth < self.max_depth:
                 args = [self.ev(a, env, bind, depth) for a in t[2]]
                 return self.call(name, args, depth + 1)
+            if isinstance(name, str) and self.opaque is not None and self.opaque(name):
+                # a call the caller of the folder declared symbolic (e.g. the `+` of a generic parameter): kept as a term over folded arguments
+                return ("opaque", name, tuple(self.ev(a, env, bind, depth) for a in t[2]))
             raise Unknown("call " + str(name))
         if k == "upd":
             base = self.ev(t[1], env, bind, depth)
@@ -204,6 +209,28 @@ class Folder:
         raise Unknown(k + " " + pp(t))
 
     def call(self, fpath, args, depth=0, bind=None):
+        if bind is None:
+            try:
+                key = (fpath, tuple(args))
+                hit = self._memo.get(key)
+            except TypeError:
+                key = hit = None
+            if hit is not None:
+                if isinstance(hit, Unknown):
+                    raise hit
+                return hit
+            try:
+                r = self._call(fpath, args, depth, bind)
+            except Unknown as e:
+                if key is not None and depth < self.max_depth - 2:
+                    self._memo[key] = e
+                raise
+            if key is not None:
+                self._memo[key] = r
+            return r
+        return self._call(fpath, args, depth, bind)
+
+    def _call(self, fpath, args, depth=0, bind=None):
         env = {("arg", i + 1): a for i, a in enumerate(args)}
         for p in self.paths(fpath):
             taken = True
@@ -422,7 +449,14 @@ def _opt_is(which):
     return f
 
 
+def _into_int(self, args):
+    if _isc(args[0]) and isinstance(args[0][1], int):
+        return args[0]          # Into between integer types is the lossless widening
+    raise Unknown("Into::into of a non-integer")
+
+
 STD_MODELS = {
+    "<T as std::convert::Into<U>>::into": _into_int,
     "<std::result::Result<T, F> as std::ops::FromResidual<std::result::Result<std::convert::Infallible, E>>>::from_residual": _from_residual,
     "std::option::Option::<T>::and_then": _opt_and_then,
     "std::option::Option::<T>::map": _opt_map,
@@ -464,6 +498,18 @@ for _b in (8, 16, 32, 64):
         STD_MODELS[_p + "checked_mul"] = (lambda ty: lambda self, args: _checked(lambda a, b: a * b)(self, args, ty))(_t)
 
 
+def _int_cmp(self, args):
+    a, b = [x[1] if x[0] == "ref" else x for x in args]
+    if not (_isc(a) and _isc(b)):
+        raise Unknown("cmp of non-constants")
+    d = (int(a[1]) > int(b[1])) - (int(a[1]) < int(b[1]))
+    # std::cmp::Ordering is not part of the fact file: the variant index slot carries the discriminant (-1 / 0 / 1) itself
+    return ("agg", "adt", "std::cmp::Ordering", ("Less", "Equal", "Greater")[d + 1], (), d)
+
+
+for _t in _INT_RANGES:
+    STD_MODELS["std::cmp::impls::<impl std::cmp::Ord for %s>::cmp" % _t] = _int_cmp
+
 for _a in _INT_RANGES:
     for _b in _INT_RANGES:
         if _a != _b:
@@ -481,6 +527,8 @@ def show(v):
         return tuple(show(x) for x in v[4])
     if v[0] == "ref":
         return show(v[1])
+    if v[0] == "opaque":
+        return ("opaque", v[1]) + tuple(show(x) for x in v[2])
     return pp(v)
 
 
